@@ -11,10 +11,12 @@ For each independently written breaking change (patch.diff, demo.diff, meta.json
 import fcntl, json, os, shutil, subprocess, sys, time
 
 ROOT = os.path.dirname(os.path.dirname(os.path.abspath(__file__)))
-WT = "/tmp/seedchk/repo"
-VWT = "/tmp/seedchk/verif"   # separate /verif worktree: harness manifests are rendered per VERIF_REPO
-os.makedirs("/tmp/seedchk", exist_ok=True)
-lock = open("/tmp/seedchk/lock", "w")
+SLOT = os.environ.get("SEED_SLOT", "")
+BASE = "/tmp/seedchk" + SLOT
+WT = BASE + "/repo"
+VWT = BASE + "/verif"   # separate /verif worktree: harness manifests are rendered per VERIF_REPO
+os.makedirs(BASE, exist_ok=True)
+lock = open(BASE + "/lock", "w")
 fcntl.flock(lock, fcntl.LOCK_EX)
 
 
